@@ -291,6 +291,12 @@ def simulate_real(wl, planned, plan, steps, sched):
                  "what": "real step %r failed internally: %s" % (step.output, r["crash"])},
                 None, stats)
       bad = [e for e in r["errors"] if e[0] in ("import-error", "pyi-error")]
+      # a wired read `u_i_j = mod.name` names something the upstream body
+      # defines: "no such attribute" on such a line means the step saw a
+      # different module than the one that was written for it (first passes
+      # of cycles excepted, as for import errors)
+      bad += [e for e in r["errors"] if e[0] in ("module-attr", "attribute-error")
+              and "\nu_" in e[1]]
       if bad and eid in first_pass:
         # the first pass over an import cycle runs before the other members'
         # stubs exist; the planner ignores its errors by design
